@@ -91,3 +91,25 @@ package ice
 //@   modifies *d
 //@   ensures missing: !attrHas(m, stun.AttrDtlsInStun) ==> result != nil
 //@   ensures decodes: attrHas(m, stun.AttrDtlsInStun) ==> result == nil && len(*d) == attrLen(m, stun.AttrDtlsInStun) && forall j int :: (*d).off <= j && j < (*d).off + len(*d) ==> elems(*d)[j] == attrByte(m, stun.AttrDtlsInStun, j - (*d).off)
+
+//@ func (AttrControlled).AddTo
+//@   props C16 C05
+//@   ensures never-fails: result == nil
+//@   ensures encodes-controlled: attrHas(m, stun.AttrICEControlled) && (!old(attrHas(m, stun.AttrICEControlled)) ==> attrLen(m, stun.AttrICEControlled) == 8 && attrBE64(m, stun.AttrICEControlled) == c)
+
+//@ func (AttrControlling).AddTo
+//@   props C16 C05
+//@   ensures never-fails: result == nil
+//@   ensures encodes-controlling: attrHas(m, stun.AttrICEControlling) && (!old(attrHas(m, stun.AttrICEControlling)) ==> attrLen(m, stun.AttrICEControlling) == 8 && attrBE64(m, stun.AttrICEControlling) == c)
+
+//@ func (*AttrControlled).GetFrom
+//@   props C16 C05
+//@   modifies *c, fam:E_uint8
+//@   ensures decodes-controlled: attrHas(m, stun.AttrICEControlled) && attrLen(m, stun.AttrICEControlled) == 8 ==> result == nil && *c == attrBE64(m, stun.AttrICEControlled)
+//@   ensures missing-or-wrong-size: !attrHas(m, stun.AttrICEControlled) || attrLen(m, stun.AttrICEControlled) != 8 ==> result != nil && *c == old(*c)
+
+//@ func (*AttrControlling).GetFrom
+//@   props C16 C05
+//@   modifies *c, fam:E_uint8
+//@   ensures decodes-controlling: attrHas(m, stun.AttrICEControlling) && attrLen(m, stun.AttrICEControlling) == 8 ==> result == nil && *c == attrBE64(m, stun.AttrICEControlling)
+//@   ensures missing-or-wrong-size: !attrHas(m, stun.AttrICEControlling) || attrLen(m, stun.AttrICEControlling) != 8 ==> result != nil && *c == old(*c)
